@@ -1057,6 +1057,20 @@ def check_C07(ck):
             except Exception:
                 ok = False
             ck.expect(ok, "invariant:random", c[1], impl, "non-identity subgroup point", "random() returns a subgroup member")
+        # CurveProjective::random on a replayed word stream, real code vs model (`Jac.randomSpec`): rejected abscissae, the
+        # abscissa 0 (on E1 the point (0, 2) of order 3, which the cofactor kills: retry), rejected Fq candidates, both signs
+        rnd2 = [("random/replayed-stream", "%s rnd %s" % (tag, ",".join("%x" % rng.randrange(1 << 64) for _ in range(n_))))
+                for n_ in ((1, 7, 13, 20, 40) if not thorough else tuple(range(1, 60)))]
+        rnd2.append(("random/abscissa-zero-first", "%s rnd %s" % (tag, ",".join(["0"] * (7 if tag == "g1" else 13)))))
+        rnd2.append(("random/rejected-field-candidates", "%s rnd %s" % (tag, ",".join(["ffffffffffffffff"] * 20))))
+        rnd2.append(("random/sign-bit", "%s rnd %s" % (tag, ",".join(["5"] * 6 + ["100000001"] + ["5"] * 6 + ["100000000"]))))
+        for c, (impl, _) in zip(rnd2, ck.run(rnd2)):
+            try:
+                P = g.pa(impl.split(" ")[0])
+                ok = P is not None and C.on_curve(P) and C.mul(P, R) is None
+            except Exception:
+                ok = False
+            ck.expect(ok, "invariant:random", c[1], impl, "non-identity subgroup point", "random() returns a subgroup member")
         zc = ck.run([("zero", "%s jaczero" % tag), ("zero", "%s affzero" % tag), ("zero", "%s jaciszero %s" % (tag, g.J(None))), ("zero", "%s affiszero inf" % tag)])
         ck.expect(zc[1][0] == "inf" and zc[2][0] == "true" and zc[3][0] == "true", "identity-constructors", "zero()", str([z[0] for z in zc]), "identity", "zero() is the identity")
         # batch normalisation of valid points (with identity entries produced in several ways) keeps the invariant
@@ -1185,7 +1199,7 @@ def check_C08(ck):
             pos, calls = 0, 0
             nbits = p.bit_length()
             while True:
-                ws = [(words[pos + i] if pos + i < len(words) else 0) for i in range(nl)]
+                ws = [(words[pos + i] if pos + i < len(words) else calls + i + 1) for i in range(nl)]
                 pos += nl; calls += nl
                 c = sum(w << (64 * i) for i, w in enumerate(ws)) & ((1 << nbits) - 1)
                 if c < p:
